@@ -204,6 +204,38 @@ impl<E> CQueue<E> {
     }
 
     ///
+    /// Returns the timestamp of the event that the next call to
+    /// `fetch_next` would return, without removing it or otherwise
+    /// changing the queue (neither the current time nor the bucket
+    /// window are advanced). Returns `None` if the queue is empty.
+    ///
+    #[must_use]
+    pub fn next_time(&self) -> Option<Duration> {
+        if self.is_empty() {
+            return None;
+        }
+
+        if let Some((_, time, _)) = self.zero_event_bucket.front() {
+            return Some(*time);
+        }
+
+        // Same scan as `fetch_next`, but on local copies of the window.
+        let mut head = self.head;
+        let mut t1 = self.t1;
+        loop {
+            if !self.buckets[head].is_empty() {
+                let min = self.buckets[head].front_time();
+                if min <= t1 {
+                    return Some(min);
+                }
+            }
+
+            head = (head + 1) % self.n;
+            t1 += self.t;
+        }
+    }
+
+    ///
     /// Fetches the smalles event from the calender queue.
     ///
     /// # Panics
